@@ -7,7 +7,7 @@ use crate::report::{par_run, Report};
 use crate::rng::Rng;
 use serde_json::json;
 
-pub const RULE: &str = "All 22 indicators, every period 1..=64 (every period slot for multi-period ones, others varied), multipliers {0,-1,1e308,NaN,2}: seeded op programs of at least 3n+3 (and at least 60) client calls mixing ordinary values with NaN, +-inf, +-f64::MAX, subnormals, signed zeros, bars violating low<=close<=high, scalar and bar feeds, a second user bar type, reset, clone (clone then driven too), Display, Debug, period(), bincode serialize and serialize-deserialize-swap; sampled periods up to 4096; plus long runs of 3*10^5 calls for periods {1,2,3,7,64} (counters far past every wrap). Each call is wrapped in catch_unwind with the crate built with overflow checks and debug assertions; any panic or serialization error is a violation. Non-trivial: a program with >= 3n+3 next calls containing at least one non-finite or extreme input; distinct by construction (indicator, period tuple, repetition).";
+pub const RULE: &str = "All 22 indicators, every period 1..=64 (every period slot for multi-period ones, others varied), multipliers {0,-1,1e308,NaN,2}: seeded op programs of at least 3n+3 (and at least 60) client calls mixing ordinary values with NaN, +-inf, +-f64::MAX, subnormals, signed zeros, bars violating low<=close<=high, scalar and bar feeds, a second user bar type, reset, clone (clone then driven too), Display, Debug, period(), bincode serialize and serialize-deserialize-swap; sampled periods up to 4096; programs on Default::default() instances incl. ta::DataItem feeds and the constructors' rejection path; plus long runs of 3*10^5 calls for periods {1,2,3,7,64} (counters far past every wrap). Each call is wrapped in catch_unwind with the crate built with overflow checks and debug assertions; any panic or serialization error is a violation. Non-trivial: a program with >= 3n+3 next calls containing at least one non-finite or extreme input; distinct by construction (indicator, period tuple, repetition).";
 
 const MULTS: [f64; 5] = [0.0, -1.0, 1e308, f64::NAN, 2.0];
 
@@ -45,8 +45,8 @@ fn gen_op(rng: &mut Rng, kind: Kind, p_hostile: f64) -> Op {
     if r < 11 {
         return Op::Debug;
     }
-    if r < 12 {
-        return Op::Period;
+    if r < 13 {
+        return if r % 2 == 0 { Op::Period } else { Op::Multiplier };
     }
     if r < 14 {
         return Op::Ser;
@@ -242,8 +242,58 @@ fn run_long(ctx: &Ctx) -> Report {
     })
 }
 
+/// Default::default() instances, ta::DataItem feeds, and the constructor's error path
+fn run_defaults(ctx: &Ctx) -> Report {
+    let seed = ctx.seed;
+    let reps = ctx.pick(20usize, 200usize);
+    let jobs: Vec<Kind> = ALL_KINDS.to_vec();
+    par_run(jobs, ctx.threads, move |kind, rep| {
+        for r in 0..reps {
+            let mut rng = Rng::derive(seed, 0xC12D + *kind as u64, r as u64);
+            let p = kind.default_params();
+            let mut inst = match Inst::new_default(*kind) {
+                Ok(i) => i,
+                Err(e) => {
+                    violation(rep, &p, &[], &format!("Default::default() panicked: {}", e.0), "defaults");
+                    return;
+                }
+            };
+            let mut ops = Vec::new();
+            let mut g = crate::gen::BarGen::new(crate::gen::BarStyle::Mixed, 1.0, rng.u64());
+            for i in 0..(3 * p.max_period() + 10) {
+                let op = match i % 5 {
+                    0 => Op::NextItem(g.next()), // a valid bar through ta::DataItem
+                    1 if kind.has_scalar() => Op::NextF(hostile_scalar(&mut rng)),
+                    2 => Op::NextBar(hostile_bar(&mut rng)),
+                    _ => gen_op(&mut rng, *kind, 0.1),
+                };
+                ops.push(op.clone());
+                rep.evaluations += 1;
+                if let Res::Panic(m) | Res::Error(m) = inst.apply(&op) {
+                    violation(rep, &p, &ops, &m, "defaults");
+                    return;
+                }
+            }
+            // the constructor's rejection path must return, not panic
+            if kind.n_periods() > 0 {
+                let mut z = p;
+                z.p[r % kind.n_periods()] = 0;
+                rep.evaluations += 1;
+                if let Err(crate::inst::NewError::Panic(m)) = Inst::try_new(&z) {
+                    violation(rep, &z, &[], &format!("constructor panicked on a zero period: {}", m), "defaults");
+                }
+            }
+            rep.count("programs_on_default_instances");
+            rep.distinct_by_construction += 1;
+        }
+    })
+}
+
 pub fn run(ctx: &Ctx) -> Report {
     let mut rep = Report::new();
+    if ctx.phase_enabled("defaults") {
+        rep.merge(run_defaults(ctx));
+    }
     if ctx.phase_enabled("periods") {
         rep.merge(run_periods(ctx));
     }
@@ -260,7 +310,7 @@ pub fn run(ctx: &Ctx) -> Report {
                 rep.inconclusive.push(format!("coverage floor missed: {} = 0", key));
             }
         }
-        for key in ["programs_large_period", "long_runs"] {
+        for key in ["programs_large_period", "long_runs", "programs_on_default_instances"] {
             if rep.counters.get(key).copied().unwrap_or(0) == 0 {
                 rep.inconclusive.push(format!("coverage floor missed: {} = 0", key));
             }
